@@ -19,6 +19,9 @@ BUILT = {
  "C08": ("engine-a", "exploration", "stateful property testing with dirty-fill owners, all-zero predicate at alloc_bytes return",
          "Every owner dirties its range; every alloc_bytes/alloc_bytes_owned return is checked byte-for-byte for zero across fresh, rewound, top-released, recycled and reopened space.",
          "same as C01", "5/C08"),
+ "C09": ("file-engine", "exploration", "mutation-based property testing of every open variant against a field-level validity oracle; byte-for-byte file comparison; read-only op sessions; supervised worker processes",
+         "A valid arena file from a generated history (with stale bytes above the cursor) is mutated (identification bytes, truncation, arbitrary replacement, wrong expected options) and opened through all four variants; refused opens must be refused exactly when the decoded fields demand it and must leave the file prefix identical. Read-only sessions run generated sequences over the safe mutating API: ReadOnly / documented panic / unchanged state, never a signal, file identical afterwards.",
+         "with_truncate(true), create_new on an existing path and remove_on_drop(true) excluded by the statement's own exclusions", "5/C09"),
  "C10": ("engine-a", "exploration", "stateful property testing, free-list snapshot invariants + policy predicate on the serving node",
          "After every step the raw free-list snapshot is checked for well-formedness and ordering; every allocation that fresh space cannot satisfy is checked against the Optimistic/Pessimistic/None policy and the remainder rule.",
          "snapshot accessor is a raw bounded walk added under the verif feature", "5/C10"),
@@ -85,6 +88,7 @@ def main():
             {"name": "buffer-engine", "path": "/verif/harness/src/props/c14.rs", "serves_properties": ["C14"], "kind_free_text": "micro-case property engine for BytesRefMut/BytesMut writers and readers"},
             {"name": "reader-engine", "path": "/verif/harness/src/props/small.rs", "serves_properties": ["C15"], "kind_free_text": "micro-case property engine for the arena-level get_* readers"},
             {"name": "checksum-engine", "path": "/verif/harness/src/props/small.rs", "serves_properties": ["C19"], "kind_free_text": "micro-case property engine for Allocator::checksum"},
+            {"name": "file-engine", "path": "/verif/harness/src/props/c09.rs", "serves_properties": ["C09"], "kind_free_text": "file mutator + read-only session engine on top of Engine A's file builder"},
             {"name": "engine-a", "path": "/verif/harness/src/enga.rs", "serves_properties": [p for p in ALL if p in BUILT and BUILT[p][0] == "engine-a"], "kind_free_text": "single-threaded model-based history interpreter driven by proptest strategies; shadow map + free-list snapshot oracles; worker processes under a supervisor"},
         ],
         "checks": checks,
